@@ -60,9 +60,16 @@ func c19Token(r *Rng, t *Tree) string {
 	case 10:
 		return r.Pick([]string{"", "-", "--", "---", "-=", "--=", "--=x", "-=x", "=", "/x", "-\n", "--\n", "- ", "-- "})
 	case 11:
+		if r.Chance(1, 4) { // small spans at the ends of the int range
+			return r.Pick([]string{"9223372036854775805..9223372036854775807", "9223372036854775806..9223372036854775807", "-9223372036854775808..-9223372036854775806",
+				"9223372036854775807..9223372036854775807", "-3..2", "9223372036854775800..9223372036854775806"})
+		}
 		a := r.Range(-5, 50)
 		return fmt.Sprintf("%d..%d", a, a+r.Range(-3, 9000))
 	case 12:
+		if r.Chance(1, 4) {
+			return "--" + key + "=" + r.Pick([]string{"9223372036854775805..9223372036854775807", "-9223372036854775808..-9223372036854775807", "9223372036854775806..9223372036854775807"})
+		}
 		return "--" + key + "=" + fmt.Sprintf("%d..%d", r.Range(0, 9), r.Range(0, 9999))
 	case 13:
 		return "k" + strconv.Itoa(r.Intn(99)) + "=" + r.Pick(HostileAttached)
@@ -147,8 +154,9 @@ func init() {
 		Technique: "runtime monitoring: recover()-based panic monitor + error-contract monitor + exit-path monitor around every call, on-disk journal written before each case so that runtime-fatal crashes and stalls are attributable, bounded-progress watchdog; workloads from a seeded hostile generator and Go native coverage-guided fuzzing",
 		Rule: "case = (program from a fixed menu of 16 definitions covering all kinds/modes/trees/help/required/require-order, entry point in {Parse, Parse+Dispatch, Help+GetRequiredArg helpers, completion bash, completion zsh, environment content + Parse, Parse(nil)}, token list); tokens from hostile pools (arbitrary bytes, empty strings, dashes and '=' shapes, numerals, int ranges with span <= 10^4, the program's own keys in every spelling), 1 MiB tokens, bundles of 10^5 letters, 10^5 tokens; " +
 			"then native fuzzing of two targets from the seed corpus in the code. distinct = distinct (program, entry, token list); non-trivial = the token list is not empty. Int range tokens with a span above 10^4 are skipped (excluded by the statement).",
-		Assumptions:     []string{"hang = no journal progress of a worker for 60 s (the slowest generated case takes < 2 s); a stall must reproduce 3/3 in isolation to count as a violation, otherwise it is reported as inconclusive"},
-		PerCaseTimeoutS: 60,
+		Assumptions:     []string{"hang = no journal progress of a worker for 25 s (the slowest generated case takes < 2 s); a stall must reproduce 3/3 in isolation to count as a violation, otherwise it is reported as inconclusive"},
+		PerCaseTimeoutS: 25,
+		MemLimitMB:      6000,
 		Cases:           func(tier string) int { return tierN(tier, 150000, 4000000) },
 		Run: func(seed uint64, idx int, tier string) *fw.Result {
 			c := c19Case(seed, idx)
